@@ -187,12 +187,12 @@ Section Proofs.
   Definition is_async (req : val) : bool :=
     match get_field T (req_header req) "AsynchronousIndicator" with VBool true => true | _ => false end.
   (* the request-auth value of THIS request: nil if it carries no credentials *)
-  Definition rauth_of (req : val) : option bytes :=
-    if has_creds req then req_auth_fn T (req_auth_val req) else None.
+  Definition rauth_of (c : cfg) (req : val) : option bytes :=
+    if has_creds req then req_auth_fn T (c_sid c) (req_auth_val req) else None.
   (* a request is processed iff it is consistent and, if it carries credentials, they are accepted by a configured callback *)
   Definition cleared (c : cfg) (req : val) : bool :=
     count_ok req && negb (is_async req) &&
-    (negb (has_creds req) || (c_req_auth c && match req_auth_fn T (req_auth_val req) with Some _ => true | None => false end)).
+    (negb (has_creds req) || (c_req_auth c && match req_auth_fn T (c_sid c) (req_auth_val req) with Some _ => true | None => false end)).
 
   Definition build_response (c : cfg) (req : val) (ritems : list val) : val :=
     let hdr := req_header req in
@@ -209,7 +209,7 @@ Section Proofs.
   Lemma handle_batch_spec c req script :
     let '(evs, oresp, script') := handle_batch T K c req script in
     if cleared c req then
-      evs = (if has_creds req then [EReqAuth (req_auth_val req) true] else []) ++ calls c (rauth_of req) (req_items req) /\
+      evs = (if has_creds req then [EReqAuth (req_auth_val req) true] else []) ++ calls c (rauth_of c req) (req_items req) /\
       oresp = Some (build_response c req
                 (map (fun p => response_item T K (fst p) (snd p))
                      (combine (req_items req) (outcomes c (req_items req) script))))
@@ -224,7 +224,7 @@ Section Proofs.
       cbn [negb andb]; auto.
     all: unfold rauth_of; destruct (has_creds req); cbn [negb orb andb].
     all: try (destruct (c_req_auth c); cbn [andb]; [|auto];
-              destruct (req_auth_fn T (req_auth_val req)) as [tok|]; [|auto]).
+              destruct (req_auth_fn T (c_sid c) (req_auth_val req)) as [tok|]; [|auto]).
     all: lazymatch goal with
          | |- context [handle_items T K ?cc ?ra ?its ?scr] =>
              let Hs := fresh "Hs" in
@@ -255,7 +255,7 @@ Section Proofs.
       ritems = map (fun p => response_item T K (fst p) (snd p)) (combine (req_items req) (outcomes c (req_items req) script)) ->
       enc_top T (VPtr (build_response c req ritems)) = None ->
       step_result c st script
-        (arm_r c ++ ((if has_creds req then [EReqAuth (req_auth_val req) true] else []) ++ calls c (rauth_of req) (req_items req))
+        (arm_r c ++ ((if has_creds req then [EReqAuth (req_auth_val req) true] else []) ++ calls c (rauth_of c req) (req_items req))
                ++ arm_w c ++ [EEncodeFailed; EClose k]) None
   | SR_answered tag fl req n st' ritems b script' :
       request_top T = Some (tag, fl) -> dec_top "Request" tag fl st = Ok (req, n, st') ->
@@ -263,7 +263,7 @@ Section Proofs.
       ritems = map (fun p => response_item T K (fst p) (snd p)) (combine (req_items req) (outcomes c (req_items req) script)) ->
       enc_top T (VPtr (build_response c req ritems)) = Some b ->
       step_result c st script
-        (arm_r c ++ ((if has_creds req then [EReqAuth (req_auth_val req) true] else []) ++ calls c (rauth_of req) (req_items req))
+        (arm_r c ++ ((if has_creds req then [EReqAuth (req_auth_val req) true] else []) ++ calls c (rauth_of c req) (req_items req))
                ++ arm_w c ++ [EWrote b]) (Some (st', script')).
 
   Lemma request_step_spec c st script :
@@ -333,9 +333,9 @@ Section Proofs.
     - rewrite app_nil_r. apply (TO_final c [] k). constructor.
     - rewrite app_nil_r. apply TO_final. destruct Hev as [->| ->]; repeat constructor.
     - rewrite app_nil_r.
-      replace (arm_r c ++ ((if has_creds req then [EReqAuth (req_auth_val req) true] else []) ++ calls c (rauth_of req) (req_items req))
+      replace (arm_r c ++ ((if has_creds req then [EReqAuth (req_auth_val req) true] else []) ++ calls c (rauth_of c req) (req_items req))
                       ++ arm_w c ++ [EEncodeFailed; EClose k])
-        with (arm_r c ++ (((if has_creds req then [EReqAuth (req_auth_val req) true] else []) ++ calls c (rauth_of req) (req_items req))
+        with (arm_r c ++ (((if has_creds req then [EReqAuth (req_auth_val req) true] else []) ++ calls c (rauth_of c req) (req_items req))
                       ++ arm_w c ++ [EEncodeFailed]) ++ [EClose k])
         by (rewrite <- !app_assoc; reflexivity).
       apply TO_final. apply Forall_app; split; [apply Forall_app; split|apply Forall_app; split].
@@ -345,8 +345,8 @@ Section Proofs.
       + repeat constructor.
     - rewrite <- !app_assoc. cbn [app].
       replace (arm_r c ++ (if has_creds req then [EReqAuth (req_auth_val req) true] else []) ++
-               calls c (rauth_of req) (req_items req) ++ arm_w c ++ EWrote b :: serve_loop T K f c st' script')
-        with (arm_r c ++ ((if has_creds req then [EReqAuth (req_auth_val req) true] else []) ++ calls c (rauth_of req) (req_items req))
+               calls c (rauth_of c req) (req_items req) ++ arm_w c ++ EWrote b :: serve_loop T K f c st' script')
+        with (arm_r c ++ ((if has_creds req then [EReqAuth (req_auth_val req) true] else []) ++ calls c (rauth_of c req) (req_items req))
                       ++ arm_w c ++ EWrote b :: serve_loop T K f c st' script')
         by (rewrite <- !app_assoc; reflexivity).
       apply TO_answered.
